@@ -64,6 +64,10 @@ func matrix(r *ev.Run) {
 					ag.Keyring.Add(agent.AddedKey{PrivateKey: k1.Priv, Comment: "key one"})
 					ag.Keyring.Add(agent.AddedKey{PrivateKey: k2.Priv, Comment: "key two"})
 					ag.Keyring.Add(agent.AddedKey{PrivateKey: k3.Priv, Certificate: ucert, Comment: "plain cert"})
+					// an upstream certificate with a YSSHCA KeyID: listed when the mode is off, hidden when it is on — before the
+					// lock and after the unlock alike
+					ycert := mk(pool[2], gen.YSSHCAKeyID(gen.KeyIDSpec{Touch: 1, TransID: "ffffffffff", Prins: []string{"u"}}))
+					ag.Keyring.Add(agent.AddedKey{PrivateKey: pool[2].Priv, Certificate: ycert, Comment: "upstream ysshca cert"})
 					inner, err := shimagent.New(shimagent.Option{Address: sock, NoUpstream: noUp})
 					if err != nil {
 						r.Violation(c, "shim-construction-fails-without-fault", err.Error(), rec)
@@ -114,8 +118,8 @@ func matrix(r *ev.Run) {
 						r.Violation(c, "list-fails-without-fault", err.Error(), rec)
 						return
 					}
-					if len(before.list) != 5 {
-						r.Inconclusive(fmt.Sprintf("matrix: expected 5 listed identities before the lock, got %v", before.list))
+					if want := map[bool]int{true: 5, false: 6}[noUp]; len(before.list) != want {
+						r.Inconclusive(fmt.Sprintf("matrix: expected %d listed identities before the lock, got %v", want, before.list))
 						return
 					}
 					pass := []byte("matrix passphrase")
